@@ -53,7 +53,7 @@ pub fn inventory(thorough: bool) -> Report {
             } } }
             if n == maxn.min(3) || n < 3 {
                 // TOML round trip (kept to the smaller inventories)
-                if let Ok(s) = toml::to_string(&inv) { match s.parse::<Inventory<Tot, (), Option<()>>>() { Ok(back) => { if back.artifacts != inv.artifacts { r.violation("toml_round_trip", "artifacts differ after render + parse", s, "equal".into(), "different".into()); } } Err(e) => { if n > 0 { r.violation("toml_round_trip", "rendered inventory does not parse", s, "Ok".into(), e.to_string()); } } } }
+                if let Ok(s) = toml::to_string(&inv) { match s.parse::<Inventory<Tot, (), Option<()>>>() { Ok(back) => { if back.artifacts != inv.artifacts { r.violation("toml_round_trip", "artifacts differ after render + parse", s, "equal".into(), "different".into()); } } Err(e) => { r.violation("toml_round_trip", "rendered inventory does not parse (also the EMPTY inventory must)", format!("{n} artifacts: {s:?}"), "Ok".into(), e.to_string()); } } }
             }
             let mut p = n; let mut done = n == 0;
             while p > 0 { p -= 1; idx[p] += 1; if idx[p] < choices.len() { break; } idx[p] = 0; if p == 0 { done = true; } }
